@@ -306,6 +306,28 @@ def run(tier, seed, replay=None):
                     break
         except Exception as e:
             R.notes.setdefault('nonstring_errors', []).append(f'{target} mixed constants: {type(e).__name__}: {str(e)[:80]}')
+    # ---------------- IN lists: every item is rendered as the literal of its own value
+    from mindsdb_sql.parser.ast import Tuple as Tuple_
+    for target in TARGETS:
+        try:
+            for items in ([1, 2.5], [2.5, 1], [1, 2, 3.75, 4], [0, 1e-7], [1, True], [1, '1'], [3, 2.0, 1.5]):
+                a = parse_sql('select a from t where b in (7, 8)', 'mindsdb')
+                a.where.args[1] = Tuple_([Constant(v) for v in items])
+                txt = render(a, target)
+                m_ = re.search(r'IN \((.*)\)', txt)
+                got = m_.group(1).split(', ') if m_ else None
+                want = []
+                for v in items:
+                    b = parse_sql('select a from t where b = 7', 'mindsdb')
+                    b.where.args[1] = Constant(v)
+                    want.append(render(b, target).rsplit('= ', 1)[1].strip())
+                nonstr += 1
+                if got != want:
+                    R.violation({'target': target, 'in_list': [repr(v) for v in items], 'rendered': txt, 'items_rendered': got,
+                                 'literals_of_the_values_alone': want, 'what': 'an item of an IN list is not rendered as the literal of its value'})
+                    break
+        except Exception as e:
+            R.notes.setdefault('nonstring_errors', []).append(f'{target} IN list: {type(e).__name__}: {str(e)[:80]}')
     R.cov['evaluations'] = evaluations + nonstr
     R.cov['distinct_nontrivial'] = len({(r[0], r[1], r[2]) for r in good if any(c in r[0] for c in "'\\")})
     R.cov['rule'] = ('values: all strings over {\' \\ % : ; - newline a} up to length 3 (4 in thorough) + random unicode; '
